@@ -56,14 +56,20 @@ def optW {α} (f : α → String) : Option α → String
   | some a => f a
   | none => "ERR"
 
-/-- whole serial of an argument that denotes a whole day of the date system, else none -/
-def wholeSerial : Arg → Option Int
+/-- the exact serial (with its time-of-day fraction) of an argument whose whole part denotes a day of
+    the date system, else none -/
+def serialQ : Arg → Option Rat
   | .num n =>
     let q := n.toRat
-    if q.den = 1 ∧ 1 ≤ q.num ∧ q.num ≤ Spec.C18.maxSerial ∧ q.num ≠ 60 then some q.num else none
+    if 1 ≤ q.floor ∧ q.floor ≤ Spec.C18.maxSerial ∧ q.floor ≠ 60 then some q else none
   | .dt t =>
-    if t.sec = 0 ∧ 0 ≤ t.day ∧ t.day ≤ maxDay then some (if t.day > 58 then t.day + 2 else t.day + 1) else none
+    if 0 ≤ t.sec ∧ t.sec < 86400 ∧ 0 ≤ t.day ∧ t.day ≤ maxDay then
+      some (((if t.day > 58 then t.day + 2 else t.day + 1 : Int) : Rat) + t.sec / 86400)
+    else none
   | _ => none
+
+/-- its whole part -/
+def wholeSerial (a : Arg) : Option Int := (serialQ a).map Rat.floor
 
 def specDateOfArg (a : Arg) : Option Spec.C18.Date := (wholeSerial a).bind Spec.C18.dateOf
 
@@ -162,8 +168,8 @@ def handleOp (op : String) (args : List Arg) : Option (String × String) :=
   | "DAYS", [e, s] =>
     match asDT e, asDT s with
     | some re, some rs =>
-      let spec := match wholeSerial e, wholeSerial s with
-        | some x, some y => if (x < 60) = (y < 60) then fl ((x - y : Int) : Rat) else "-"
+      let spec := match serialQ e, serialQ s with
+        | some x, some y => if (x.floor < 60) = (y.floor < 60) then fl (x - y) else "-"
         | _, _ => "-"
       some (bind2 re rs fun x y => showRes fl (DAYS x y), spec)
     | _, _ => none
